@@ -356,6 +356,46 @@ def spellings(R: str, f: str) -> list[tuple[str, str]]:
     return S
 
 
+# dot segments x how they are ENCODED x what kind of location carries them.  A location is normalised in several
+# steps (urlsplit, percent-decoding, joining to the base, '..' collapsing): a parent step that is still percent-encoded
+# when one of those steps looks at the string must be collapsed all the same, in absolute paths and file URLs as well
+# as in relative locations.
+DOTSEG_ENCODINGS = [('literal', '..', '.'), ('upper', '%2E%2E', '%2E'), ('lower', '%2e%2e', '%2e'), ('half1', '.%2E', '%2E'),
+                    ('half2', '%2e.', '%2e'), ('mixed', '%2E%2e', '%2e')]
+DOTSEG_CARRIERS = [('abs-path', ''), ('file-url', 'file://'), ('file-colon', 'file:'), ('file-url3', 'file:///'),
+                   ('relative', None)]
+DOTSEG_ROUTES = [   # (route through the tree from R/sand, target directory class); P = parent step, D = '.' step
+    ('{S}/P/other/{f}', 'outside'), ('{S}/P/sand_evil/{f}', 'sibling'), ('{S}/sub/P/P/other/{f}', 'outside'),
+    ('{S}/sub/P/{f}', 'in'), ('{S}/D/{f}', 'in'), ('{S}/sub/D/P/P/{f}', 'outside'), ('{S}/a b/P/P/sand_evil/{f}', 'sibling'),
+    ('{S}/P/sand/sub/{f}', 'in'),
+]
+
+
+def dotseg_spellings(R: str, f: str) -> list[tuple[str, str, str]]:
+    """(spelling, target class, tag 'dotseg:<carrier>:<encoding>[:sep]') — the full product"""
+    out = []
+    for route, cls in DOTSEG_ROUTES:
+        for cname, prefix in DOTSEG_CARRIERS:
+            for ename, pp, dd in DOTSEG_ENCODINGS:
+                for sepname, enc_sep in (('slash', False), ('pct-sep', True)):
+                    if cname == 'relative':
+                        body = route.replace('{S}/', '')
+                    else:
+                        body = route.replace('{S}', R + '/sand')
+                    segs = body.replace('{f}', f).split('/')
+                    o = ''
+                    for i, sg in enumerate(segs):
+                        if i:
+                            # the separator in front of an encoded dot segment may be encoded too
+                            o += '%2F' if (enc_sep and sg in ('P', 'D') and ename != 'literal') else '/'
+                        o += pp if sg == 'P' else dd if sg == 'D' else sg
+                    if cname == 'file-url3':
+                        o = o.lstrip('/')
+                    loc = (prefix or '') + o
+                    out.append((loc, cls, f'dotseg:{cname}:{ename}:{sepname}'))
+    return out
+
+
 # random spellings: a walk over the tree written with segment operators
 def random_spelling(rng, R: str, f: str) -> tuple[str, str]:
     dirs = ['sand', 'sand/sub', 'sand/a b', 'sand_evil', 'other', '']
@@ -1019,8 +1059,26 @@ def render_cases(ctx: Ctx, drv: Optional[Driver], tree: 'Tree') -> None:
 TRACE_DIRS = ['sand', 'sand/sub', 'sand/sub/deep', 'sand/a b', 'sand_evil', 'other', '']
 
 
+def encode_dotsegs(rng, loc: str) -> str:
+    """percent-encode the dot segments of a spelling (whole segments only), each with probability 1/2"""
+    head = ''
+    for pre in ('file:///', 'file://', 'file:'):
+        if loc.startswith(pre):
+            head, loc = pre, loc[len(pre):]
+            break
+    segs = loc.split('/')
+    for i, sg in enumerate(segs):
+        if sg in ('.', '..') and rng.random() < 0.5:
+            segs[i] = rng.choice(['%2E', '%2e']) if sg == '.' else rng.choice(['%2E%2E', '%2e%2e', '.%2E', '%2e.'])
+    return head + '/'.join(segs)
+
+
 def spell_local(rng, cur_dir: str, target: str, R: str) -> str:
     """a spelling of the absolute path `target` as seen from a document in the local directory `cur_dir`"""
+    if rng.random() < 0.3:
+        # an absolute location that climbs out of the referring document's directory with (encoded) parent steps
+        deep = cur_dir + '/' + os.path.relpath(target, cur_dir)
+        return rng.choice(['', 'file://', 'file:']) + encode_dotsegs(rng, deep)
     style = rng.random()
     if style < 0.55:
         body = os.path.relpath(target, cur_dir)
@@ -1349,6 +1407,19 @@ def explore(ctx: Ctx, drv: Optional[Driver], full: bool) -> None:
             sp = spellings(R, f)
             n_rand = ctx.pick(25, 150)
             sp = sp + [random_spelling(ctx.rng, R, f) for _ in range(n_rand)]
+            # dot-segment encodings x carriers x routes: the full product in the thorough tier; in the quick tier every
+            # (carrier, encoding) pair with a rotating route / separator, different for every mechanism
+            ds = dotseg_spellings(R, f)
+            if not full:
+                pick: dict[tuple, list] = {}
+                for loc, cls, tag in ds:
+                    pick.setdefault(tuple(tag.split(':')[1:3]), []).append((loc, cls, tag))
+                ds = [v[(mi * 5 + ctx.rng.randrange(len(v))) % len(v)] for v in pick.values()] + \
+                     [v[(mi * 7 + 3 + ctx.rng.randrange(len(v))) % len(v)] for v in pick.values()]
+            tags = {}
+            for loc, cls, tag in ds:
+                tags[loc] = tag
+                sp.append((loc, cls))
             for si, (loc, cls) in enumerate(sp):
                 for ai, allow in enumerate(MODES):
                     kinds = KINDS if full else [KINDS[(mi + si + ai) % len(KINDS)]]
@@ -1360,6 +1431,9 @@ def explore(ctx: Ctx, drv: Optional[Driver], full: bool) -> None:
                         nontrivial = any(a['allow'] != 'all' and a['url'] is not None for a in obs['access'])
                         ctx.case(case, nontrivial, tag=f'mech:{mech}')
                         ctx.count(f'allow:{allow}')
+                        if loc in tags:
+                            ctx.count(':'.join(tags[loc].split(':')[:3]))
+                            ctx.count('dotseg-class:' + cls)
                         ctx.count(f'kind:{kind}')
                         ctx.count(f'class:{cls}')
                         ctx.count('outcome:' + obs['outcome'])
